@@ -125,7 +125,7 @@ func TestGovcStandInMultipart(t *testing.T) {
 			return nil
 		}))
 		// the operation's media type: with a file parameter every media type is sent as a multipart document
-		// (application/x-www-form-urlencoded is left out: known finding client.mangleContentType#post.C11:describes~2)
+		// (application/x-www-form-urlencoded is left out: known finding client.mangleContentType#post.C11:describesurlencoded~2)
 		opMediaType := runtime.MultipartFormMime
 		if len(files) > 0 {
 			opMediaType = []string{runtime.MultipartFormMime, runtime.JSONMime, "application/octet-stream", "Multipart/Form-Data"}[r.Intn(4)]
